@@ -312,7 +312,7 @@ fn is_recharge_single(single: &Single) -> bool {
 
 /// "recompute from the bare tours" for the `c05_feat` stream: the pending lists are kept (recharge / reload markers live in
 /// `ignored`), every tour gets an EMPTY cache and the stale flag; then GoalContext::accept_route_state on every tour (clear,
-/// the route-level handler of every feature in goal order, unset) and the solution-level handlers (restore).
+/// the route-level handler of every feature in goal order, unset), the stale flag again, and the solution-level handlers (restore).
 fn rebuild_full(ctx: &InsertionContext) -> InsertionContext {
     let s = &ctx.solution;
     let solution = SolutionContext {
@@ -329,6 +329,11 @@ fn rebuild_full(ctx: &InsertionContext) -> InsertionContext {
     fresh.solution.routes.iter_mut().for_each(|rc| {
         let _ = rc.state_mut();
         goal.accept_route_state(rc);
+        // flagged stale again: every solution-level handler refreshes the tour in its first round, so the result does not
+        // depend on how many rounds accept_solution_state_with_states needs (a round is restarted when a handler moves jobs
+        // between the pending lists, and since /repo 5d6f1d2 a restart refreshes the work balance value of a tour that an
+        // earlier handler of the abandoned round flagged stale)
+        let _ = rc.state_mut();
     });
     fresh.restore();
     fresh
